@@ -100,6 +100,7 @@ def s_C14(tier, rng):
 
 def s_C15(tier, rng):
     return [("corpus", gen.corpus()),
+            ("serde_in_place", gen.serde_in_place(tier, rng, Q(tier, 300, 3000))),
             ("serde_big", gen.serde_big(tier, rng)),
             ("serde_stream", gen.serde_stream(tier, rng, Q(tier, 3000, 50000))),
             ("serde_roundtrip", gen.serde_roundtrip(tier, rng, Q(tier, 500, 5000)))]
@@ -134,7 +135,7 @@ def s_C18(tier, rng):
             ("keyfill", gen.keyfill(tier, rng)),
             ("serde_roundtrip", gen.serde_roundtrip(tier, rng, Q(tier, 400, 4000)))]
 
-ALLMON = ["C01", "C02", "C04", "C06", "C07", "C08", "C10", "C12", "C13", "C14", "C16", "C18", "EXP"]
+ALLMON = ["C01", "C02", "C04", "C06", "C07", "C08", "C10", "C12", "C13", "C14", "C15", "C16", "C18", "EXP"]
 
 PROPS = {
     "C01": {"translate": ["arena", "lockfree", "rodeo", "threaded"], "streams": s_C01, "monitors": ["C01"], "conc_monitors": ["C03", "C05", "C16"]},
@@ -146,7 +147,7 @@ PROPS = {
     "C10": {"translate": ["rodeo", "threaded"], "streams": s_C10, "monitors": ["C10"]},
     "C12": {"streams": s_C12, "monitors": ["C12", "C01", "C02"]},
     "C13": {"translate": ["arena", "rodeo"], "streams": s_C13, "monitors": ["C13", "C01", "C02", "C07", "C08", "C10"]},
-    "C14": {"streams": s_C14, "monitors": ["C14", "C01", "C02", "C10", "EXP"]},
+    "C14": {"streams": s_C14, "monitors": ["C14", "C01", "C02", "C10", "EXP"], "conc_monitors": ["C14"]},
     "C15": {"streams": s_C15, "monitors": ALLMON},
     "C16": {"translate": ["rodeo", "threaded"], "streams": s_C16, "monitors": ["C16"], "conc_monitors": ["C16"], "forwarding": True, "facts": "forwarding", "props_extra": ["C16F"]},
     "C17": {"streams": s_C17, "monitors": ["C17"], "forwarding": True, "facts": "forwarding", "props_extra": ["C17F"]},
